@@ -11,6 +11,7 @@ PROPERTY_PROFILE = {
     "C03": "ctx",
     "C04": "dml",
     "C07": "fail",
+    "C13": "txn",
     "C14": "connect",
     "C15": "vars",
 }
